@@ -3,6 +3,8 @@ from __future__ import annotations
 
 import random
 
+import traceback
+
 import z3
 
 from checks import cxx_generated as G
@@ -120,10 +122,20 @@ def check(run):
     n = 40 if run.tier == "thorough" else 6
     programs = 0
     samples = []
+    refused_programs = []
     for t, (sc, shp) in enumerate(G.corpus(run.seed, n)):
+        refusals = {}
         for cse in (True, False):
             programs += 1
-            probs, header, source = G.validate_program(run, sc, f"prog{t}.cse_{'on' if cse else 'off'}", cse=cse, prefix="C02")
+            try:
+                probs, header, source = G.validate_program(run, sc, f"prog{t}.cse_{'on' if cse else 'off'}", cse=cse, prefix="C02")
+            except Exception as e:
+                if "formak" not in "".join(traceback.format_exc()).split("validate_program")[-1] and "sympy" not in traceback.format_exc():
+                    raise  # a failure of the checker itself
+                # the GENERATOR refused the definition loudly: the property speaks about accepted models only - but acceptance
+                # must not depend on the CSE setting
+                refusals[cse] = f"{type(e).__name__}: {(str(e).splitlines() or [''])[0][:120]}"
+                continue
             for ob, p in probs[:2]:
                 confirmed = True
                 run.findings.append(Finding(ob.name, p.split(":")[0].split(".")[0][:40], f"program shape n,c,k,sensors={shp} (cse={cse}): {p}", {"language": "c++", "inputs": {"shape": list(shp), "seed": run.seed + 31 * t, "cse": cse, "transcendental": t % 4 == 3, "share_reading": True, "rational": t % 3 == 1, "nonsmooth": t % 5 == 2, "magnitude": t % 6 == 4}, "model_definition": sc.describe()}, confirmed))
@@ -140,6 +152,13 @@ def check(run):
                         run.findings.append(Finding(ob2.name, "run", p, {"language": "c++", "inputs": {"shape": list(shp), "seed": run.seed + 31 * t, "cse": cse, "transcendental": t % 4 == 3, "share_reading": True, "rational": t % 3 == 1, "nonsmooth": t % 5 == 2, "magnitude": t % 6 == 4}}, True))
             if len(samples) < 2:
                 samples.append({"program": sc.describe(), "generated_source_excerpt": source[:1200]})
+        if refusals:
+            refused_programs.append((t, shp, refusals))
+            ob = run.prove(f"C02.cxx.prog{t}.accepted_with_both_cse_settings_or_neither", [], z3.BoolVal(len(refusals) == 2), function=G.FN)
+            if len(refusals) == 1:
+                run.findings.append(Finding(ob.name, "acceptance", f"program shape {shp}: the generator refuses it with CSE {'on' if True in refusals else 'off'} only ({list(refusals.values())[0]})", {"language": "c++", "inputs": {"shape": list(shp), "seed": run.seed + 31 * t, "cse": True in refusals, "transcendental": t % 4 == 3, "share_reading": True, "rational": t % 3 == 1, "nonsmooth": t % 5 == 2, "magnitude": t % 6 == 4}, "model_definition": sc.describe()}, True))
+    if refused_programs:
+        run.notes.append(f"{len(refused_programs)} corpus program(s) refused loudly by the generator under both CSE settings (not accepted models): {[(t, list(r.values())[0][:60]) for t, _, r in refused_programs][:3]}")
     # a definition whose symbols are spelled like CSE temporaries (_t0 is a declared control no expression mentions): must compile and be right
     sc0 = scenarios.renamed(scenarios.Scenario(2, 1, 1, [2], seed=run.seed + 3), "_t", run.seed, unused_control=True)
     for cse in (True, False):
